@@ -18,6 +18,8 @@ Sub-checks
   level-sum / level-diff   a+b, a-b (a>b) in every bel/decibel-type unit, each evaluated twice on the same two
                 objects: both evaluations must give the power sum and a, b must still report their levels
   level-seq     a+b, a-b, b+a, a+b on one pair of objects (a>b), every result against the formula
+  level-array   a+b and a-b element-wise for array-valued levels (all ordered value pairs packed into two arrays, given
+                as ndarray and as list) in every bel/decibel-type unit, evaluated twice
   <sub>-unc     every scalar forward case of temp, log-lin, log-frac, log-log, log-direct once more with an absolute
                 (0.25) and once with a relative (5 %) uncertainty attached to the quantity: same oracle, same tolerance
                 (the formulas of the statement do not depend on an uncertainty being present)
@@ -337,6 +339,15 @@ def cases(tier, seed):
                     if x > y:
                         add('level-diff', u, x, y)
                         add('level-seq', u, x, y)
+            # the same sums / differences element-wise on array-valued levels: all ordered pairs of the value set at
+            # once (so the arrays mix x>y, x<y and x==y positions), given as ndarray and as list, evaluated twice
+            sx = tuple(x for x in SUM_VALUES_ for y in SUM_VALUES_)
+            sy = tuple(y for x in SUM_VALUES_ for y in SUM_VALUES_)
+            dx = tuple(x for x in SUM_VALUES_ for y in SUM_VALUES_ if x > y)
+            dy = tuple(y for x in SUM_VALUES_ for y in SUM_VALUES_ if x > y)
+            for kind in ('ndarray', 'list'):
+                add('level-array', u, '+', kind, sx, sy)
+                add('level-array', u, '-', kind, dx, dy)
     _CASES[key] = out
     return out
 
@@ -413,6 +424,19 @@ def _arith(ops, u, x, y, du):
         r = {'a+b': lambda: a + b, 'a-b': lambda: a - b, 'b+a': lambda: b + a}[op]()
         res.append(r.value(du))
     return (res, a.value(), b.value())
+
+
+def _arith_array(op, u, xs, ys, du, kind):
+    """a (+|-) b for array-valued levels, evaluated twice on the same objects"""
+    import numpy as np
+    from scinumtools.units import Quantity
+    mk = (lambda v: np.array(v, dtype=float)) if kind == 'ndarray' else (lambda v: [float(t) for t in v])
+    a, b = Quantity(mk(xs), u), Quantity(mk(ys), u)
+    res = []
+    for _ in range(2):
+        r = a + b if op == '+' else a - b
+        res.append(np.atleast_1d(np.array(r.value(du), dtype=float)).tolist())
+    return (res, np.atleast_1d(a.value()).tolist(), np.atleast_1d(b.value()).tolist())
 
 
 def _tags(sub, u, v):
@@ -551,6 +575,30 @@ def check_case(c, _unc=None):
         elif o[1][2] != u or not _close(o[1][1], exp, REL, 1e-9):
             rec = failure(sub, list(c), [exp, u], [o[1][1], o[1][2]], _tags(sub, u, v),
                           "round-trip-differs:rel~" + _relclass(o[1][1], exp))
+    elif sub == 'level-array':
+        _, u, op, kind, xs, ys = c
+        xs, ys = [float(t) for t in xs], [float(t) for t in ys]
+        p, b = l_split(u)
+        du = 'd' + b
+        s = 10.0 * 10.0 ** SI[p]
+        sign = 1 if op == '+' else -1
+        exp = [10 * math.log10(10.0 ** (x * s / 10) + sign * 10.0 ** (y * s / 10)) for x, y in zip(xs, ys)]
+        o = outcome(_arith_array, op, u, xs, ys, du, kind)
+        tags = ["unit=" + b, "array", "given-as=" + kind, "op=" + op] + (["prefixed"] if p else [])
+        case = [c[0], u, op, kind, list(c[4]), list(c[5])]
+        if o[0] == 'err':
+            rec = failure(sub, case, exp, list(o), tags, "raises:" + o[1] + ":" + _short(o[2]))
+        else:
+            (r1, r2), aval, bval = o[1]
+            if len(r1) != len(exp):
+                rec = failure(sub, case, exp, r1, tags, "wrong-shape:%d-instead-of-%d" % (len(r1), len(exp)))
+            elif not all(_close(g, e, REL, 1e-9) for g, e in zip(r1, exp)):
+                rec = failure(sub, case, exp, r1, tags, "wrong-value:array")
+            elif r2 != r1:
+                rec = failure(sub, case, r1, r2, tags + ["repeated-on-same-objects"], "later-evaluation-differs:a%sb" % op)
+            elif aval != xs or bval != ys:
+                rec = failure(sub, case, [xs, ys], [aval, bval], tags + ["repeated-on-same-objects"],
+                              "operand-level-changed")
     elif sub in ('level-sum', 'level-diff', 'level-seq'):
         _, u, x, y = c
         p, b = l_split(u)
@@ -632,7 +680,7 @@ def replay(rec):
 def finish(total, tier, seed):
     h = total.hist
     subs = ['temp', 'temp-rt', 'log-lin', 'log-lin-rt', 'log-frac', 'log-log', 'log-direct', 'log-direct-rt',
-            'level-sum', 'level-diff', 'level-seq', 'temp-array', 'log-lin-array'] + [x + '-unc' for x in UNC_SUBS]
+            'level-sum', 'level-diff', 'level-seq', 'level-array', 'temp-array', 'log-lin-array'] + [x + '-unc' for x in UNC_SUBS]
     per = {s: h.get(s + ":ok", 0) + h.get(s + ":fail", 0) for s in subs}
     empty = [s for s, n in per.items() if n == 0]
     if empty:
@@ -660,7 +708,8 @@ MANIFEST = dict(
          "and ln, both directions and there-and-back; the documented dBm/Hz fraction form; identity and prefix change of "
          "every level unit; the documented level<->level pairs; B<->Np directly against the composition through AR and "
          "PR; a+b and a-b (a>b) for every bel/decibel unit over {0,1,2,83,87}^2 (thorough 7 values) against the power "
-         "sum, each evaluated twice on the same objects, plus the sequence a+b, a-b, b+a, a+b on one pair; every scalar "
+         "sum, each evaluated twice on the same objects, plus the sequence a+b, a-b, b+a, a+b on one pair, and element-wise "
+         "on array-valued levels (ndarray and list); every scalar "
          "forward conversion again with an absolute and a relative uncertainty attached; array conversions asked twice. "
          "22 900 cases per quick run, about 6e4 in the thorough tier, every one executed.",
     note="Numerical agreement to 1e-9 relative (identity 1e-12), not bit-exact; magnitudes are a finite alphabet of "
